@@ -25,6 +25,10 @@ class EngineBug(BaseException):
     """Internal inconsistency of the engine (never attributed to the code under test)."""
 
 
+class WallTimeout(BaseException):
+    """raised by the obligation runner's alarm"""
+
+
 class Fuel(BaseException):
     """More symbolic decisions than the stated bound on one path (unwinding assertion)."""
 
@@ -89,9 +93,13 @@ class Explorer:
                 except TypeError as e:
                     if "__hash__ method should return an integer" in str(e):
                         res = ("unsupported", "symbolic hash value reached CPython's C-level hash()")
+                    elif any(k in str(e) for k in ("SymStr", "SymBytes", "SymInt", "SymBool", "SymFloat", "SymByteArray", "SymRef")):
+                        res = ("unsupported", f"a symbolic proxy reached C-level code: {str(e)[:120]}")
                     else:
                         res = ("raise", e)
                 except Exception as e:  # the real code raised
+                    if type(e).__name__ == "ArgumentError" and "Timeout" in str(e):
+                        raise WallTimeout()  # the wall-clock alarm fired inside a z3 callback
                     res = ("raise", e)
             finally:
                 Explorer.cur = None
@@ -468,6 +476,11 @@ class SymInt:
             ps = [a * c, a * d, b * c, b * d]
             return min(ps), max(ps)
 
+        if isinstance(o, int) and not isinstance(o, bool):
+            if o == 1:
+                return self
+            if o == -1:
+                return -self  # 0 - x is much cheaper for the solver than a multiplication by the all-ones constant
         return self._bin(o, lambda a, b: a * b, rng)
 
     __rmul__ = __mul__
